@@ -9,6 +9,15 @@ SHARDS = 6
 
 def run_module(ctx):
     lib.tlc(ctx, "mc_serve", "MC_Serve.tla", "MC_Serve.cfg", workers=4, timeout=2400)
+    if ctx.pid == "C15":
+        # the Refresh Interval announced to RTR clients (not a listed property): the model of the code as it is has the
+        # zero interval, the clamped one has not; what a real server announces is recorded by the replay
+        lib.tlc(ctx, "mc_rtrtiming_clamped", "RtrTiming.tla", "MC_RtrTiming_clamped.cfg", workers=1, timeout=300)
+        t = lib.tlc(ctx, "mc_rtrtiming_as_coded", "RtrTiming.tla", "MC_RtrTiming_as_coded.cfg", workers=1, timeout=300,
+                    expect_ok=False, count=False)
+        with open(t["out"], errors="replace") as f:
+            ctx.extra["rtr_refresh_interval_model_as_coded"] = ("zero interval reachable" if "RefreshHintInRange is equal to FALSE" in f.read()
+                                                                else "in range")
     for cfg, inv in (("MC_Serve_as_shipped.cfg", "C17_NoLostWakeup"), ("MC_Serve_wholesecond.cfg", "C16_NotModifiedOnlyIfCurrent")):
         bad = lib.tlc(ctx, cfg[:-4].lower(), "MC_Serve.tla", cfg, workers=2, timeout=900, expect_ok=False, count=False)
         with open(bad["out"], errors="replace") as f:
